@@ -1,0 +1,72 @@
+//go:build verif
+
+// Contracts for package length, checked by /verif (govc). Comment-only.
+
+package length
+
+//@ -- number of lines of s and the i-th line, over the assumed contract of strings.Split
+//@ spec nlines(s Str) int = splitcnt(s, "\n") - (splitpart(s, "\n", splitcnt(s, "\n") - 1) == "" ? 1 : 0)
+//@ spec line(s Str, i int) Str = splitpart(s, "\n", i)
+
+//@ func StringBytes
+//@   tags C18
+//@   assigns nothing
+//@   ensures result == slen(s)
+
+//@ func StringRunes
+//@   tags C18
+//@   assigns nothing
+//@   ensures result == runes(s) && result <= slen(s)
+
+//@ func StringCells
+//@   tags C18
+//@   assigns nothing
+//@   ensures result == W(s) && result >= 0 && result <= 2 * runes(s)
+
+//@ func Lines
+//@   tags C18,C09
+//@   assigns nothing
+//@   ensures [count] len(result) == nlines(s)
+//@   ensures [content] forall i int :: {result[i]} 0 <= i && i < len(result) ==> result[i] == line(s, i)
+//@   ensures [fresh] fresh(result) || len(result) == 0
+//@   ensures [only-trailing-empty-dropped] nlines(s) >= splitcnt(s, "\n") - 1
+
+//@ func LongestLineBytes
+//@   tags C18,C09
+//@   assigns nothing
+//@   ensures [upper] forall i int :: {line(s, i)} 0 <= i && i < nlines(s) ==> result >= slen(line(s, i))
+//@   ensures [attained] nlines(s) > 0 ==> exists i int :: 0 <= i && i < nlines(s) && result == slen(line(s, i))
+//@   ensures [none] nlines(s) == 0 ==> result == 0
+//@   loop#1 invariant -1 <= rangeindex && rangeindex < len(ss) && len(ss) == nlines(s) && len(ss) >= 2 && max >= 0
+//@   loop#1 invariant forall k int :: {ss[k]} 0 <= k && k < len(ss) ==> ss[k] == line(s, k)
+//@   loop#1 invariant forall k int :: {line(s, k)} 0 <= k && k <= rangeindex ==> max >= slen(line(s, k))
+//@   loop#1 invariant rangeindex >= 0 ==> exists k int :: 0 <= k && k <= rangeindex && max == slen(line(s, k))
+//@   loop#1 invariant rangeindex == -1 ==> max == 0
+//@   loop#1 decreases len(ss) - rangeindex
+
+//@ func LongestLineRunes
+//@   tags C18,C09
+//@   assigns nothing
+//@   ensures [upper] forall i int :: {line(s, i)} 0 <= i && i < nlines(s) ==> result >= runes(line(s, i))
+//@   ensures [attained] nlines(s) > 0 ==> exists i int :: 0 <= i && i < nlines(s) && result == runes(line(s, i))
+//@   ensures [none] nlines(s) == 0 ==> result == 0
+//@   loop#1 invariant -1 <= rangeindex && rangeindex < len(ss) && len(ss) == nlines(s) && len(ss) >= 2 && max >= 0
+//@   loop#1 invariant forall k int :: {ss[k]} 0 <= k && k < len(ss) ==> ss[k] == line(s, k)
+//@   loop#1 invariant forall k int :: {line(s, k)} 0 <= k && k <= rangeindex ==> max >= runes(line(s, k))
+//@   loop#1 invariant rangeindex >= 0 ==> exists k int :: 0 <= k && k <= rangeindex && max == runes(line(s, k))
+//@   loop#1 invariant rangeindex == -1 ==> max == 0
+//@   loop#1 decreases len(ss) - rangeindex
+
+//@ func LongestLineCells
+//@   tags C18,C09
+//@   assigns nothing
+//@   ensures [upper] forall i int :: {line(s, i)} 0 <= i && i < nlines(s) ==> result >= W(line(s, i))
+//@   ensures [attained] nlines(s) > 0 ==> exists i int :: 0 <= i && i < nlines(s) && result == W(line(s, i))
+//@   ensures [none] nlines(s) == 0 ==> result == 0
+//@   ensures [nonneg] result >= 0
+//@   loop#1 invariant -1 <= rangeindex && rangeindex < len(ss) && len(ss) == nlines(s) && len(ss) >= 2 && max >= 0
+//@   loop#1 invariant forall k int :: {ss[k]} 0 <= k && k < len(ss) ==> ss[k] == line(s, k)
+//@   loop#1 invariant forall k int :: {line(s, k)} 0 <= k && k <= rangeindex ==> max >= W(line(s, k))
+//@   loop#1 invariant rangeindex >= 0 ==> exists k int :: 0 <= k && k <= rangeindex && max == W(line(s, k))
+//@   loop#1 invariant rangeindex == -1 ==> max == 0
+//@   loop#1 decreases len(ss) - rangeindex
